@@ -31,3 +31,4 @@ import Lace.Props.C03TermFuel
 #print axioms Lace.C03.ref_run_fuel_mono
 #print axioms Lace.C03.term_loop_fuel_mono
 #print axioms Lace.C03.loop_fuel_split
+#print axioms Lace.C03.ref_run_fuel_split
